@@ -58,9 +58,10 @@ theorem fixedRows_spec (c : Chunk) (strlen : Nat) (rest : List Bytes) (i s : Nat
 
 theorem fixedStringTransform_spec (c : Chunk) (strlen : Nat) (cells : List Bytes) (h : Encodes c cells) :
     fixedStringTransform c strlen = .ok ((cells.map (fixedCell strlen)).flatten) := by
-  obtain ⟨hr, s0, he, _⟩ := h
+  obtain ⟨hr, ⟨s0, he, _⟩, hcol⟩ := h
   have := fixedRows_spec c strlen cells 0 s0 [] he (by simp)
-  simpa [fixedStringTransform, hr] using this
+  rw [fixedStringTransform, withCol_ok c _ _ _ hcol]
+  simpa [hr] using this
 
 /-! ### transform_to_values -/
 
@@ -79,7 +80,7 @@ theorem cellsFrom_spec (c : Chunk) (rest : List Bytes) (i s : Nat) (h : EncFrom 
     simp only [getE, h0, h1, sliceE, e, hlen, if_true, hsl, ih (i + 1) (s + cell.length) hrest]
 
 theorem cellsE_spec (c : Chunk) (cells : List Bytes) (h : Encodes c cells) : cellsE c = .ok cells := by
-  obtain ⟨hr, s0, he, _⟩ := h
-  rw [cellsE, hr]; exact cellsFrom_spec c cells 0 s0 he
+  obtain ⟨hr, ⟨s0, he, _⟩, hcol⟩ := h
+  rw [cellsE, withCol_ok c _ _ _ hcol, hr]; exact cellsFrom_spec c cells 0 s0 he
 
 end Exetera.Transforms
